@@ -1294,17 +1294,12 @@ I: edi;
 I: esi;
 I: ebp;
 I: esp;
-I: e8;
-I: e9;
-I: e10;
-I: e11;
-I: e12;
-I: e13;
-I: e14;
-I: e15;
-I: eip;
+I: ss;
 I: eflags;
+I: eip;
 I: cs;
+I: ds;
+I: es;
 I: fs;
 I: gs;
 """
